@@ -1400,6 +1400,18 @@ class ContactHandler(Messenger, dbus.service.Object):
     @dbus.service.method(DBUS_IFACE, in_signature='', out_signature='')
     def close(self):
         ''' Close the TCP connection immediately. '''
+        # Nothing more will be acknowledged: report all unfinished transfers
+        for item in list(self._tx_map.values()):
+            self.send_bundle_finished(
+                str(item.transfer_id),
+                item.ack_length,
+                'connection closed'
+            )
+        self._tx_map.clear()
+        self._tx_pend_start.clear()
+        self._tx_pend_ack.clear()
+        self._tx_tmp = None
+
         if tuple(self.locations):
             self.remove_from_connection()
 
